@@ -108,6 +108,7 @@ def parseOp (cmd : String) (t : List String) : Option Op :=
     if kind > 2 then none else pure (.importScript (← nat? t "sc") kind (← nat? t "sid") (← bool? t "secret"))
   | "markused" => do pure (.markUsed (← nat? t "sc") (← (kv t "key").bind parseKey))
   | "setsynced" => do pure (.setSynced (← nat? t "h") (← nat? t "hash"))
+  | "setbirthday" => some .setBirthday
   | "privkey" => do pure (.privKey (← nat? t "sc") (← (kv t "key").bind parseKey))
   | "lastprivkey" => do pure (.lastPrivKey (← nat? t "sc") (← nat? t "acct") (← bool? t "int"))
   | "script" => do pure (.script (← nat? t "sc") (← (kv t "key").bind parseKey))
